@@ -10,6 +10,7 @@ def run(tier, seed):
     work = os.path.join(vlib.WORK, PROP)
     r = vlib.Result(PROP, tier, seed)
     cases = lc.run_family(vlib, "control", work, r, fresh=True)
+    cases += lc.run_family(vlib, "delim", work, r, fresh=True)
     # the builder also assembles call/cc and with-handler forms: all programs within the budget
     res = vlib.run_tlc("Lang", "MC_Lang_build_quick.cfg" if tier == "quick" else "MC_Lang_build.cfg", work, workers=8, timeout=1500)
     r.add_tlc(res)
@@ -21,7 +22,7 @@ def run(tier, seed):
         for t, v in zip(tagged, verdicts):
             v["id"] = t["id"]
         r.add_cases(tagged, verdicts, nontrivial=lc.nontrivial)
-    r.cov["rule"] = ("control family of LangFam.tla (capture context x dynamic-wind nesting x invocation; escapes from nested calls, "
+    r.cov["rule"] = ("delim family (reset/shift defined exactly as scheme/stdlib.scm does, on call/cc and a meta-continuation cell: contexts x uses of k x dynamic-wind nesting) and control family of LangFam.tla (capture context x dynamic-wind nesting x invocation; escapes from nested calls, "
                      "map/foldl callbacks and handlers; errors through winds and handlers) and every builder program containing call/cc "
                      "or with-handler, run on the Lang.tla CEK machine and replayed under JIT on and off")
     r.cov["exhaustive"] = True
